@@ -14,6 +14,9 @@ func (e *Engine) executable(fn *ssa.Function) bool {
 	if fn.Blocks == nil {
 		return false
 	}
+	if extraExecutableFn[fnKey(fn)] {
+		return true
+	}
 	pkg := fnPkgPath(fn)
 	if strings.HasPrefix(pkg, "github.com/cloudflare/pint") {
 		return true
@@ -33,6 +36,17 @@ func fnPkgPath(fn *ssa.Function) string {
 		return fn.Origin().Pkg.Pkg.Path()
 	case fn.Parent() != nil:
 		return fnPkgPath(fn.Parent())
+	}
+	// synthetic wrappers (pointer-receiver wrapper of a value method, instantiated generic methods): the package of
+	// the receiver's named type
+	if recv := fn.Signature.Recv(); recv != nil {
+		t := recv.Type()
+		if p, ok := t.(*types.Pointer); ok {
+			t = p.Elem()
+		}
+		if n, ok := t.(*types.Named); ok && n.Obj().Pkg() != nil {
+			return n.Obj().Pkg().Path()
+		}
 	}
 	return ""
 }
@@ -302,9 +316,21 @@ var atomTolerant = map[string]bool{
 func (e *Engine) findCut(fn *ssa.Function) *ssa.Function {
 	if e.cuts == nil {
 		e.cuts = map[string]*ssa.Function{}
-		for name, m := range e.L.Main.Members {
-			if f, ok := m.(*ssa.Function); ok && strings.HasPrefix(name, "verifStub_") {
-				e.cuts[strings.TrimPrefix(name, "verifStub_")] = f
+		// the harness package first; auxiliary harness files may live in other pint packages (Spec.Aux)
+		pkgs := []*ssa.Package{e.L.Main}
+		for _, p := range e.L.Prog.AllPackages() {
+			if p != e.L.Main && strings.HasPrefix(p.Pkg.Path(), "github.com/cloudflare/pint") {
+				pkgs = append(pkgs, p)
+			}
+		}
+		for _, p := range pkgs {
+			for name, m := range p.Members {
+				if f, ok := m.(*ssa.Function); ok && strings.HasPrefix(name, "verifStub_") {
+					k := strings.TrimPrefix(name, "verifStub_")
+					if _, dup := e.cuts[k]; !dup {
+						e.cuts[k] = f
+					}
+				}
 			}
 		}
 	}
@@ -325,7 +351,8 @@ func (e *Engine) findCut(fn *ssa.Function) *ssa.Function {
 	if f, ok := e.cuts[key]; ok {
 		return f
 	}
-	if f, ok := e.cuts[fn.Name()]; ok && fn.Pkg == e.L.Main {
+	// plain name: a function of the package the stub itself lives in
+	if f, ok := e.cuts[fn.Name()]; ok && fn.Pkg != nil && fn.Pkg == f.Pkg && fn.Signature.Recv() == nil {
 		return f
 	}
 	return nil
@@ -383,7 +410,10 @@ func mergeValue(c *Term, a, b Value) (Value, bool) {
 		return Ite(c, x, y), true
 	case FloatVal:
 		y, ok := b.(FloatVal)
-		return x, ok && x.F == y.F
+		if ok && x.I != nil && y.I != nil {
+			return FloatVal{I: Ite(c, x.I, y.I)}, true
+		}
+		return x, ok && x.I == nil && y.I == nil && x.F == y.F
 	case StringVal:
 		y, ok := b.(StringVal)
 		if !ok {
@@ -470,9 +500,6 @@ func mergeValue(c *Term, a, b Value) (Value, bool) {
 	case MapVal:
 		y, ok := b.(MapVal)
 		return x, ok && x == y
-	case ChanVal:
-		y, ok := b.(ChanVal)
-		return x, ok && x == y
 	case IfaceVal:
 		y, ok := b.(IfaceVal)
 		if !ok {
@@ -533,7 +560,7 @@ func (e *Engine) mergeStates(outs []*State, basePC, mark int, dst *ssa.Call) (*S
 			return nil, false
 		}
 		f := o.top()
-		if len(o.frames) != len(outs[0].frames) || f.block != f0.block || f.ip != f0.ip || f.prev != f0.prev {
+		if len(o.frames) != len(outs[0].frames) || f.block != f0.block || f.ip != f0.ip || f.prev != f0.prev || o.goCount != outs[0].goCount {
 			return nil, false
 		}
 	}
@@ -650,9 +677,6 @@ func sameValue(a, b Value) bool {
 	case MapVal:
 		y, ok := b.(MapVal)
 		return ok && x == y
-	case ChanVal:
-		y, ok := b.(ChanVal)
-		return ok && x == y
 	case *MapObj:
 		y, ok := b.(*MapObj)
 		return ok && x == y
@@ -723,15 +747,12 @@ func (e *Engine) builtin(st *State, fr *Frame, dst *ssa.Call, b *ssa.Builtin, cc
 		case ArrayVal:
 			set(ConstBV(uint64(len(x.Elems)), 64))
 		case PtrVal:
+			if _, isChan := cc.Args[0].Type().Underlying().(*types.Chan); isChan {
+				set(e.chanLenCap(st, x, b.Name() == "cap"))
+				break
+			}
 			n := cc.Args[0].Type().Underlying().(*types.Pointer).Elem().Underlying().(*types.Array).Len()
 			set(ConstBV(uint64(n), 64))
-		case ChanVal:
-			c := st.chanOf(x)
-			if b.Name() == "len" {
-				set(ConstBV(uint64(len(c.buf)), 64))
-			} else {
-				set(ConstBV(uint64(c.cap), 64))
-			}
 		default:
 			unsupported("len of %T", x)
 		}
@@ -835,14 +856,14 @@ func (e *Engine) builtin(st *State, fr *Frame, dst *ssa.Call, b *ssa.Builtin, cc
 		}
 		set(acc)
 	case "close":
-		c := st.chanOf(args[0])
-		if c.closed {
-			e.fail(st, "panic", "close of closed channel")
+		e.chanClose(st, args[0])
+	case "ssa:wrapnilchk":
+		// ssa:wrapnilchk(ptr, recvType, method): the nil check of a pointer-receiver wrapper around a value method
+		if p, ok := args[0].(PtrVal); ok && p.Obj == 0 {
+			e.fail(st, "panic", "value method called using nil pointer")
 			return nil
 		}
-		nc := *c
-		nc.closed = true
-		st.setChan(args[0], &nc)
+		set(args[0])
 	case "print", "println":
 	default:
 		unsupported("builtin %s", b.Name())
